@@ -30,6 +30,8 @@ fn model_inputs(regs: &[MVal], text_regs: &[usize]) -> Vec<MVal> {
 #[derive(Clone, Debug)]
 pub struct Case {
     pub regs: Vec<MVal>,
+    /// how each register is rendered when a step hands it over as JSON text
+    pub styles: Vec<mval::TextStyle>,
     pub steps: Vec<ChainStep>,
     /// the whole history appends to ONE output buffer (and one offsets vector), the way a column builder does;
     /// each step's result is the slice it appended
@@ -169,7 +171,8 @@ impl Scenario for Chain {
             }
             steps.push(ChainStep { op, dst, text_regs });
         }
-        Case { regs, steps, shared_buffer: r.chance(1, 4) }
+        let styles = (0..nregs).map(|_| if r.chance(1, 2) { mval::TextStyle::default() } else { gen::gen_text_style(&mut r) }).collect();
+        Case { regs, styles, steps, shared_buffer: r.chance(1, 4) }
     }
 
     fn exec(&self, case: &Case, stats: &mut Stats) -> RunOut<Case> {
@@ -211,7 +214,7 @@ impl Scenario for Chain {
                 bregs.clone()
             } else {
                 stats.inc("probe/text_argument_step");
-                bregs.iter().enumerate().map(|(i, b)| if text_regs.contains(&i) { mval::to_text(&mregs[i], &mval::TextStyle::default()).into_bytes() } else { b.clone() }).collect()
+                bregs.iter().enumerate().map(|(i, b)| if text_regs.contains(&i) { mval::to_text(&mregs[i], case.styles.get(i).unwrap_or(&mval::TextStyle::default())).into_bytes() } else { b.clone() }).collect()
             };
             let mut buf = Vec::new();
             let mut offs = Vec::new();
@@ -434,6 +437,7 @@ impl Scenario for Chain {
             "registers_hex": case.regs.iter().map(|r| mval::hex(&mval::encode(r))).collect::<Vec<_>>(),
             "history": case.steps.iter().map(|s| json!({"call": s.op.to_json(), "dst": s.dst, "text_regs": s.text_regs})).collect::<Vec<_>>(),
             "shared_buffer": case.shared_buffer,
+            "styles": case.styles.iter().map(mval::style_to_json).collect::<Vec<_>>(),
         })
     }
 
@@ -447,7 +451,8 @@ impl Scenario for Chain {
                 text_regs: s["text_regs"].as_array().map(|a| a.iter().filter_map(|x| x.as_u64().map(|v| v as usize)).collect()).unwrap_or_default(),
             });
         }
-        Ok(Case { regs, steps, shared_buffer: j["shared_buffer"].as_bool().unwrap_or(false) })
+        let styles = j["styles"].as_array().map(|a| a.iter().map(mval::style_from_json).collect()).unwrap_or_default();
+        Ok(Case { regs, styles, steps, shared_buffer: j["shared_buffer"].as_bool().unwrap_or(false) })
     }
 
     fn size(&self, case: &Case) -> J {
